@@ -54,7 +54,7 @@ func kwLenCond(cs []cond, n int) []cond {
 	return cs
 }
 
-func evalKW(c Case) []finding {
+func (e *env) evalKW(c Case) []finding {
 	kek := cryptokeys.Bytes("oct-master-key", c.KSize)
 	blk, err := aes.NewCipher(kek)
 	if err != nil {
@@ -188,7 +188,7 @@ func callOpen(ae cipher.AEAD, dst, n, c, ad []byte) (o res) {
 	return o
 }
 
-func evalAEAD(c Case) []finding {
+func (e *env) evalAEAD(c Case) []finding {
 	ci := ctorByName(c.Ctor)
 	key := cryptokeys.Bytes("oct-master-key", c.KSize)
 	var s sink
